@@ -12,9 +12,13 @@ git -C $W apply $D/patch.diff
 cd /verif
 exec 9>/verif/build/.repo.lock; flock 9   # one modifier of /repo's working tree at a time (shared with revert_campaign.py)
 git -C /repo apply $D/patch.diff || { echo "PATCH DOES NOT APPLY"; exit 2; }
+# header-only change + header-only harness: do not rebuild the instrumented libraries (a miss is re-run in full)
+SKIP=""; if ! grep -a "^diff --git" $D/patch.diff | grep -qv " a/include/TFEL/"; then case " C01 C02 C03 C04 C05 C06 C07 C08 C09 C10 C11 C12 C15 C16 C17 C18 C20 C21 C22 C23 C24 C25 C26 C27 C28 " in *" $ID "*) SKIP=1;; esac; fi
 for c in $CHECKS; do
-  echo "== ./vf check $c (quick) with the change applied"
-  ./vf check $c > $D/check_$c.out 2>&1; echo "rc=$?" | tee -a $D/check_$c.out
+  echo "== ./vf check $c (quick) with the change applied (skip tree rebuild: ${SKIP:-no})"
+  VF_DEBUG_SKIP_TREE_REBUILD=$SKIP ./vf check $c > $D/check_$c.out 2>&1; rc=$?
+  if [ -n "$SKIP" ] && [ $rc != 1 ]; then ./vf check $c > $D/check_$c.out 2>&1; rc=$?; fi
+  echo "rc=$rc" | tee -a $D/check_$c.out
   grep -a "^VIOLATION\|key=\|^OK\|^INCONC" $D/check_$c.out | head -12
 done
 git -C /repo checkout -- .
